@@ -405,6 +405,17 @@ def run(prog: Program, chk: Check):
     V.decide(not guards.any_path_implies(paths, guards.parse(f"not (sync_check and {hv}.version != 0 and {hv}.version != {dv}.type_hash)")),
              fkey(rm, "success:version-agrees"), where(rm, rn.ast), "success implies no version mismatch under sync_check",
              "with sync_check a frame with a different non-zero version can be returned")
+    # a definition class without type_hash (v1 style) is still accepted with version 0: the hash of the local definition may be
+    # read only where the frame's version is known to be non-zero (short-circuit order matters: `version not in (0, data.type_hash)`
+    # evaluates the hash first and raises AttributeError before the payload was consumed)
+    for nd in g.nodes:
+        if nd.ast is None:
+            continue
+        for x in [x for x in walk_local(nd.ast) if isinstance(x, ast.Attribute) and x.attr == "type_hash" and path_of(x.value) == dv and isinstance(x.ctx, ast.Load)]:
+            facts = sub_paths(gs.at_expr(nd, x))
+            okh = not guards.any_path_implies(facts, guards.parse(f"{hv}.version != 0"))
+            V.decide(okh, fkey(rm, f"type_hash-read-under-version:{norm(nd.ast)[:40]}"), where(rm, x), f"{dv}.type_hash read only when {hv}.version != 0",
+                     f"`{dv}.type_hash` is evaluated although {hv}.version may be 0: a v1-style definition (no type_hash) raises AttributeError before the payload is drained, and the next read starts inside it")
     # type_size is the local definition's size
     tdefs = [n for n in walk_local(rm.node) if isinstance(n, ast.Assign) and any(path_of(t) == ts for t in n.targets)]
     V.decide(bool(tdefs) and all(norm(n.value) in (f"{dv}.type_size", f"{dv}.size", f"ctypes.sizeof({dv})") for n in tdefs), fkey(rm, "type_size-source"), where(rm),
